@@ -182,7 +182,7 @@ def tlc(module, cfg=None, env=None, workers=None, trace=False, timeout=1800, run
     if heap:
         jopts += ["-Xmx" + heap]
     workers = workers or NCPU
-    cmd = ["java"] + jopts + ["-cp", JAR, "tlc2.TLC", "-workers", str(workers), "-metadir", meta, "-cleanup",
+    cmd = ["java"] + jopts + ["-cp", JAR, "tlc2.TLC", "-workers", str(workers), "-metadir", meta, "-cleanup", "-checkpoint", "0",
                               "-noGenerateSpecTE", "-config", os.path.join(SPEC, cfg + ".cfg")]
     if coverage:
         cmd += ["-coverage", "1"]
